@@ -112,6 +112,9 @@ pub struct Profile {
     pub keep_going_after_early_destroy: bool,
     /// share (in percent) of a caller's program segments that are a whole future lifecycle (create, poll / wake / queue behind, finish)
     pub lifecycle_pct: u32,
+    /// share (in percent) of those lifecycles in which the owner gives up its handle on the object right after it has created the
+    /// future (what remains of the object's life is then decided by the other owners while this future is polled, woken, abandoned)
+    pub lifecycle_release_pct: u32,
 }
 
 impl Default for Profile {
@@ -136,6 +139,7 @@ impl Default for Profile {
             shape: Shape::Plain,
             sched_bytes: 300,
             keep_going_after_early_destroy: false,
+            lifecycle_release_pct: 0,
             lifecycle_pct: 12,
         }
     }
@@ -308,8 +312,9 @@ fn lifecycle(p: &Profile) -> BoxedStrategy<Vec<Op>> {
     let term = prop_oneof![4 => Just(0u8), 3 => Just(1u8), 2 => Just(2u8), 1 => Just(3u8), 1 => Just(4u8), 2 => Just(5u8)];
     // (one in ten lifecycles starts behind a backlog of plain operations that is just longer than a plausible batch size)
     let backlog = prop_oneof![2700 => Just(0usize), 100 => 33usize..=36, 100 => 65usize..=68, 100 => 130usize..=133, 1 => 4098usize..=4100];
-    ((u8s, u8s, u8s), kind, (small_fut.clone(), small_fut, small_plain), vec(mid, 0..=4), term, backlog)
-        .prop_map(|((o, slot, g), kind, (pre, post, plain), mids, term, backlog)| {
+    let release = prop::bool::weighted(p.lifecycle_release_pct.min(100) as f64 / 100.0);
+    ((u8s, u8s, u8s), kind, (small_fut.clone(), small_fut, small_plain), vec(mid, 0..=4), term, (backlog, release))
+        .prop_map(|((o, slot, g), kind, (pre, post, plain), mids, term, (backlog, release))| {
             let mut out = vec![];
             for _ in 0..backlog {
                 out.push(Op::Desync { o, body: vec![], id: 0 });
@@ -322,6 +327,9 @@ fn lifecycle(p: &Profile) -> BoxedStrategy<Vec<Op>> {
                 1 => Op::FutSync { o, body, slot, id: 0 },
                 _ => Op::After { o, g, body: plain, slot, id: 0 },
             });
+            if release {
+                out.push(Op::Release { o });
+            }
             for (m, b) in mids {
                 out.push(match m {
                     0..=2 => Op::PollOnce { slot },
